@@ -608,6 +608,11 @@ class Pool:
                 p.wait(timeout=5)
             except Exception:
                 pass
+            for fh in (p.stdin, p.stdout):
+                try:
+                    fh.close()
+                except Exception:
+                    pass
         self.procs[k] = None
 
     def close(self):
@@ -968,6 +973,8 @@ def spec_read(text):
             inv.append(f"material number {t1} of cell {t0} is not a non-negative integer")
         try:
             c = spec.parse_cell(card)
+            if c["material"] != 0 and c["density"] is None:
+                raise ValueError("no density")      # e.g. a '&' in the middle of a line: this reader gives it no meaning
         except Exception as e:
             out["cells"].append(None)
             out["unknown"].append(f"cell card {ci}: {type(e).__name__}")
@@ -1480,7 +1487,9 @@ def run(ctx):
     dist = {"corruption_kinds": {}, "roles": {}, "read_outcomes": {}, "check_outcomes": {}, "failure_signatures": {},
             "oracle": {"raised_controlled": 0, "returned_and_compared": 0, "returned_definitely_malformed": 0,
                        "spec_could_not_read_part": 0}}
-    extra = {"input_distribution": dist}
+    extra = {"input_distribution": dist,
+             "claim_scope": "partial: the theorems cover exception routing; which exception inner code raises on a "
+                            "corrupted file is explored by the search only (DESIGN.md §6 C13)"}
     try:
         # ---- 2./3. model binary, injection correspondence, vm_compute cross-check
         nx = 0
